@@ -26,7 +26,7 @@ THEOREMS = ['Pyiga.Props.C11.' + t for t in [
     'gs_symmetric_is_forward_backward', 'gs_dense_sparse_agree', 'gs_fixed_point', 'gs_energy', 'gs_energy_le',
     'gs_sweep_energy_le', 'subspace_correction_energy', 'subspace_correction_energy_le', 'mg_energy', 'mg_fixed_point', 'driver_stop', 'driver_stop_zero_residual', 'twogrid_stop',
     'smoothing_sets', 'local_mg_step_energy', 'local_mg_step_energy_top', 'local_mg_step_fixed_point',
-    'local_mg_step_fixed_point_levels', 'local_mg_step_energy_from_top',
+    'local_mg_step_fixed_point_levels', 'local_mg_step_energy_from_top', 'galerkin_chain_spec',
 ]]
 MODULES = ['Pyiga.Model.Relax', 'Pyiga.Model.LocalMG', 'Pyiga.Model.RatVec', 'Pyiga.Proofs.Relax', 'Pyiga.Proofs.RelaxMG', 'Pyiga.Proofs.LocalMG', 'Pyiga.Props.C11']
 SWEEPS = ['forward', 'backward', 'symmetric']
